@@ -127,7 +127,20 @@ class CSess(_Sess, asyncssh.SSHClientSession):
 
 
 class SSess(_Sess, asyncssh.SSHServerSession):
-    pass
+    instant = None          # (unit or None): the command ends as it starts
+
+    def session_started(self):
+        super().session_started()
+
+        if self.instant is not None:
+            # output, end of file and exit status leave together with the
+            # reply to the exec request: they reach a client channel which
+            # has not started reading
+            if self.instant[0]:
+                self.chan.write(self.instant[0])
+
+            self.chan.write_eof()
+            self.chan.exit(0)
 
 
 def run_case(case) -> CaseResult:
@@ -136,8 +149,25 @@ def run_case(case) -> CaseResult:
     nchan = len(case['chans'])
     ssessions: List[SSess] = []
 
+    instant: Dict[int, Any] = {}
+
+    for ci, cc in enumerate(case['chans']):
+        if cc.get('instant') is not None:
+            senc, cenc = srv['encoding'], cc['encoding']
+            size = cc['instant']
+
+            if not size:
+                unit = None
+            elif senc is None and cenc is not None:
+                unit = make_unit(cenc, ci, 'o', 0, size).encode(cenc)
+            else:
+                unit = make_unit(senc, ci, 'o', 0, size)
+
+            instant[ci] = (unit,)
+
     def session_factory():
         sess = SSess(store, ('s', len(ssessions)))
+        sess.instant = instant.get(len(ssessions))
         ssessions.append(sess)
         return sess
 
@@ -192,12 +222,22 @@ def run_case(case) -> CaseResult:
         eof_sent = set()
         counters: Dict[Any, int] = {}
 
+        for ci, (unit,) in instant.items():
+            eof_sent.add((ci, 's'))
+            labels.add('instant-exit:' + ('data' if unit else 'empty'))
+
+            if unit:
+                sent[(ci, 'o')] = [unit]
+
         def enc_of(ci, side):
             return case['chans'][ci]['encoding'] if side == 'c' \
                 else srv['encoding']
 
         for op in case['ops']:
             kind = op[0]
+
+            if kind != 'pump' and op[1] % nchan in instant:
+                continue
 
             if kind == 'w':
                 _, ci, stream, size = op
@@ -268,7 +308,8 @@ def run_case(case) -> CaseResult:
             # pump so far, has not even started reading).  Only where the
             # client has written nothing (data still unsent when the CLOSE
             # arrives is discarded by design)
-            if fin == 's-exit' and not sent.get((ci, 'i')):
+            if fin == 's-exit' and not sent.get((ci, 'i')) and \
+                    ci not in instant:
                 chan = ssessions[ci].chan
 
                 if (ci, 's') not in eof_sent:
@@ -397,6 +438,9 @@ def strategy(tier: str):
             chans.append({'window': draw(pick(WINDOWS)),
                           'pktsize': draw(pick(PKTSIZES)),
                           'encoding': cenc})
+
+            if draw(st.integers(0, 7)) == 0:
+                chans[-1]['instant'] = draw(pick([0, 0, 1, 5, 300]))
 
         chunks = draw(st.one_of(st.just([]), st.just([1]),
                                 st.lists(st.integers(1, 3000), min_size=1,
@@ -580,7 +624,8 @@ FAMILIES = [
            budget={'quick': 320, 'thorough': 6000},
            required={'all': ['write>window', 'write>pkt', 'multibyte-split',
                              'multi-chan', 'eof', 'pause', 'chunk-1byte',
-                             'rekey', 'exit-right-after-eof']},
+                             'rekey', 'exit-right-after-eof',
+                             'instant-exit:empty', 'instant-exit:data']},
            timeout_is_violation=True, case_timeout=120),
     Family('streams', run_streams, strategy=streams_strategy,
            budget={'quick': 600, 'thorough': 8000},
